@@ -15,6 +15,7 @@ import (
 	"verifharness/sim"
 	"verifharness/tape"
 	"verifharness/wasiguest"
+	"verifharness/wasmb"
 )
 
 // Class shared-sock-config (experimental/sock): 2-3 instances are instantiated with ONE socket configuration
@@ -75,7 +76,8 @@ func runSharedSock(t *tape.Tape, cfg sim.Config) (res sim.Result) {
 	sctx := sock.WithConfig(ctx, sock.NewConfig().WithTCPListener(host, 0))
 	if t.Chance(1, 3) {
 		// a FIXED port (found free a moment ago): an instantiation with this configuration that fails for a
-		// reason of its own (an argument containing NUL) is followed by a proper one, which must find the
+		// reason of its own (an argument containing NUL, a taken name, an import that does not resolve, a
+		// trapping start-section function) is followed by a proper one, which must find the
 		// address free: the failed attempt is not an instance and holds nothing
 		l, err := net.Listen("tcp", host+":0")
 		if err != nil {
@@ -84,10 +86,32 @@ func runSharedSock(t *tape.Tape, cfg sim.Config) (res sim.Result) {
 		port := l.Addr().(*net.TCPAddr).Port
 		l.Close()
 		fctx := sock.WithConfig(ctx, sock.NewConfig().WithTCPListener(host, port))
-		_, ferr := rt.InstantiateModule(fctx, cm, wazero.NewModuleConfig().WithName("").WithStartFunctions().WithArgs("a\x00b"))
-		if ferr == nil {
-			panic("harness: an argument containing NUL was accepted")
+		var ferr error
+		why := t.Choose(4)
+		switch why {
+		case 0: // an argument containing NUL: the system context cannot be built
+			_, ferr = rt.InstantiateModule(fctx, cm, wazero.NewModuleConfig().WithName("").WithStartFunctions().WithArgs("a\x00b"))
+		case 1: // the name is taken by an open module
+			owner, err := rt.InstantiateModule(ctx, cm, wazero.NewModuleConfig().WithName("taken").WithStartFunctions())
+			if err != nil {
+				panic(err)
+			}
+			_, ferr = rt.InstantiateModule(fctx, cm, wazero.NewModuleConfig().WithName("taken").WithStartFunctions())
+			owner.Close(ctx)
+		case 2: // an import does not resolve
+			um := &wasmb.Module{}
+			um.ImportFunc("nowhere", "f", nil, nil)
+			_, ferr = rt.InstantiateWithConfig(fctx, um.Encode(), wazero.NewModuleConfig().WithName(""))
+		case 3: // the start-section function traps
+			tm := &wasmb.Module{}
+			st := tm.AddFunc(nil, nil, nil, (&wasmb.Code{}).Unreachable().B, "")
+			tm.Start = &st
+			_, ferr = rt.InstantiateWithConfig(fctx, tm.Encode(), wazero.NewModuleConfig().WithName(""))
 		}
+		if ferr == nil {
+			panic("harness: the instantiation meant to fail succeeded")
+		}
+		res.Stat(fmt.Sprintf("fault.failing_instantiation_reason_%d", why), 1)
 		res.Stat("fault.instantiation_failing_after_the_listeners_were_bound", 1)
 		if c := listeningExpect(0); c > 0 {
 			res.Fail("instance-interference", "an instantiation with a socket configuration (%s:%d) failed (%v): %d listening socket(s) of that attempt are still there", host, port, first(ferr), c)
